@@ -306,7 +306,7 @@ Section FLa.
       simpl in *. destruct (clookup ce v) as [[pv|kv']|]; try discriminate. injection Hh as Hh. subst. apply rreach_refl.
     - destruct Hsh as [Ec [_ [Hc _]]]. subst c. exists (KMuT v s ce). split.
       + simpl. rewrite Hc. apply rreach_refl.
-      + apply Kk_intro. intros j Hj v0 pv Hd Hv. simpl. apply (H j Hj v0 pv Hd Hv). apply agree_refl.
+      + apply Kk_intro; [discriminate|]. intros j Hj v0 pv Hd Hv. simpl. apply (H j Hj v0 pv Hd Hv). apply agree_refl.
     - subst c. destruct (H ce (agree_refl _ _) m) as [kv [Hr Hk]]. exists kv. split; [exact Hr | exact Hk].
     - destruct (H ce (agree_refl _ _)) as [kv [Hh Hk]]. exists kv. split; [|exact Hk].
       simpl in *. injection Hh as Hh. subst. apply rreach_refl.
@@ -322,7 +322,7 @@ Section FLa.
       destruct pr; simpl in Hp; try contradiction; simpl; simpl in Hh; rewrite Hh; apply rreach_refl.
     - destruct Hsh as [Ec _]. subst c. exists (KMuT v s ce). split.
       + destruct pr; simpl in Hp; try contradiction; apply rreach_refl.
-      + apply Kk_intro. intros j Hj v0 pv Hd Hv. simpl. apply (H j Hj v0 pv Hd Hv). apply agree_refl.
+      + apply Kk_intro; [discriminate|]. intros j Hj v0 pv Hd Hv. simpl. apply (H j Hj v0 pv Hd Hv). apply agree_refl.
     - subst c. destruct (H ce (agree_refl _ _) (MCutP (is_codata cp ty) pr ce)) as [kv [Hr Hk]]. exists kv. split; [|exact Hk].
       assert (E : cstep cp (Run (CCut pr ty (CXtor c0 x args t)) ce) =
                   start_args cp args ce (FinXtorK x (MCutP (is_codata cp ty) pr ce))).
